@@ -407,34 +407,48 @@ Fixpoint no_xml_space_preserve (x : node) : bool :=
 (* xsl:number level="any" (XSLT/ElemNumber.cpp: findPrecedingOrAncestorOrSelf, getPreviousNode;
    CountersTable::countNode without its cache): the backwards walk is over the PHYSICAL tree — previous
    sibling's deepest last descendant, else the parent — i.e. over the document-order predecessors, stripped
-   text nodes included; the count and from patterns are tested on each node visited (a stripped text node
-   matches no pattern, the node tests ask), but getPreviousNode tests `from` only when it has moved to a
-   parent.  A node of the walk: depth in the tree, does it match from / count, is it a stripped text node.
+   text nodes included; the count and from patterns are tested on the nodes visited (a stripped text node
+   matches no pattern, the node tests ask).  Two configurations of the source are modelled, selected by
+   GenStrip: getPreviousNode tests `from` on every node visited (number_from_on_every_node = true, the tree
+   after fix d323070) or only when it has moved to a parent (false, the pinned tree: K-C13-2);
+   findPrecedingOrAncestorOrSelf tests `from` on the context node itself (number_from_on_self) or not.
+   A node of the walk: depth in the tree, does it match from / count, is it a stripped text node.
    The list is the current node followed by its predecessors in reverse document order. *)
 Record wnode := { w_depth : nat; w_from : bool; w_count : bool; w_stripped : bool }.
 
-(* findPrecedingOrAncestorOrSelf: from is tested on every node *)
+(* findPrecedingOrAncestorOrSelf after the context node: from, then count, on every node *)
 Fixpoint number_target (l : list wnode) : option (list wnode) :=
   match l with
   | [] => None
   | x :: r => if w_from x then None else if w_count x then Some l else number_target r
   end.
 
+Definition number_target_cfg (self_from : bool) (l : list wnode) : option (list wnode) :=
+  match l with
+  | [] => None
+  | x :: r => if self_from && w_from x then None else if w_count x then Some l else number_target r
+  end.
+
 (* repeated getPreviousNode from a position of depth d whose predecessors are r: how many more nodes are counted *)
-Fixpoint number_chain (d : nat) (r : list wnode) : nat :=
+Fixpoint number_chain_cfg (every : bool) (d : nat) (r : list wnode) : nat :=
   match r with
   | [] => 0
   | y :: r' =>
-      if Nat.ltb (w_depth y) d && w_from y then 0          (* moved to the parent and it matches from *)
-      else if w_count y then S (number_chain (w_depth y) r')
-      else number_chain (w_depth y) r'
+      if (if every then w_from y else Nat.ltb (w_depth y) d && w_from y) then 0
+      else if w_count y then S (number_chain_cfg every (w_depth y) r')
+      else number_chain_cfg every (w_depth y) r'
   end.
 
-Definition number_any (l : list wnode) : nat :=
-  match number_target l with
-  | Some (x :: r) => S (number_chain (w_depth x) r)
+Definition number_any_cfg (every self_from : bool) (l : list wnode) : nat :=
+  match number_target_cfg self_from l with
+  | Some (x :: r) => S (number_chain_cfg every (w_depth x) r)
   | _ => 0
   end.
+
+(* the source as it is now *)
+Definition number_any (l : list wnode) : nat := number_any_cfg number_from_on_every_node number_from_on_self l.
+(* the pinned tree *)
+Definition number_any_pinned (l : list wnode) : nat := number_any_cfg false true l.
 
 (* the same walk in the physically stripped document *)
 Definition walk_strip (l : list wnode) : list wnode := filter (fun x => negb (w_stripped x)) l.
